@@ -229,21 +229,43 @@ def dispatch(prog):
     return m
 
 
+def elementwise_image(prog, term, src):
+    """term == collect(<element-wise adapter chain over src>): the per-element value as a term
+    over ("elem",), following iter / copied / cloned / map(closure); None if term is anything else."""
+    from ..engines.schemas import closure_return_term, subst
+    if term[0] != "call" or term[1] != "Iterator::collect" or len(term[2]) != 1:
+        return None
+    chain = []
+    cur = term[2][0]
+    for _ in range(8):
+        if cur == src:
+            break
+        if cur[0] == "call" and cur[1] in ("[]::iter", "Vec::iter") and len(cur[2]) == 1 and cur[2][0] == src:
+            break
+        if cur[0] == "call" and cur[1] in ("Iterator::copied", "Iterator::cloned") and len(cur[2]) == 1:
+            cur = cur[2][0]
+            continue
+        if cur[0] == "call" and cur[1] == "Iterator::map" and len(cur[2]) == 2 and cur[2][1][0] == "closure":
+            chain.append(cur[2][1])
+            cur = cur[2][0]
+            continue
+        return None
+    else:
+        return None
+    elem = ("elem",)
+    for clo in reversed(chain):
+        cb, ret = closure_return_term(prog, clo)
+        if cb is None:
+            return None
+        params = {st for st in subterms(ret) if st[0] == "param" and st[1] == 2}
+        elem = prog.simp(subst(ret, {p: elem for p in params}), cb)
+    return elem
+
+
 def f64_image_of(prog, term, src):
-    """term == src.iter().map(|w| *w as f64).collect()"""
-    from ..engines.schemas import closure_return_term
-    if term[0] != "call" or term[1] != "Iterator::collect":
-        return False
-    mp = term[2][0]
-    if mp[0] != "call" or mp[1] != "Iterator::map" or len(mp[2]) != 2:
-        return False
-    it, clo = mp[2]
-    if not (it[0] == "call" and it[1] in ("[]::iter", "Vec::iter") and it[2][0] == src):
-        return False
-    cb, ret = closure_return_term(prog, clo)
-    if cb is None:
-        return False
-    return ret[0] == "cast" and ret[1] == "IntToFloat" and ret[2][0] == "param" and ret[2][1] == 2
+    """term is the element-wise `as f64` image of src (e.g. src.iter().map(|w| *w as f64).collect())"""
+    e = elementwise_image(prog, term, src)
+    return e is not None and e[0] == "cast" and e[1] == "IntToFloat" and e[2] == ("elem",)
 
 
 def returned_string_root(prog, body):
